@@ -562,9 +562,12 @@ bus_registry_acquire_service (BusRegistry      *registry,
            (!(flags & DBUS_NAME_FLAG_REPLACE_EXISTING) ||
 	    !(bus_service_get_allow_replacement (service))))
     {
-      /* Queue the connection */
+      /* Queue the connection. Replacement is not possible here, so
+       * DBUS_NAME_FLAG_REPLACE_EXISTING must not influence the position
+       * in the queue: a new waiter is appended and an existing waiter
+       * stays where it is (only its flags are updated). */
       if (!bus_service_add_owner (service, connection, 
-                                  flags,
+                                  flags & ~DBUS_NAME_FLAG_REPLACE_EXISTING,
                                   transaction, error))
         goto out;
       
